@@ -196,6 +196,22 @@ func GenRun(t *rapid.T, label string) []model.Point {
 		fd = Fields[2+rapid.IntRange(0, 1).Draw(t, label+".hfd")] // integer or unsigned: all 64 bits vary
 	}
 	seed := rapid.Int64Range(-50, 50).Draw(t, label+".seed")
+	// two more shapes, one run in six each:
+	// 4 - neighbouring floats that differ from bit 31 of the mantissa down:
+	//     the XOR the float codec stores has exactly 32 leading zeros;
+	// 5 - a short run written out of order with many timestamps written
+	//     twice or more (the later value wins): more than a dozen values of
+	//     one key that have to be sorted and deduplicated
+	switch rapid.IntRange(0, 5).Draw(t, label+".special") {
+	case 0:
+		shape, fd = 4, Fields[rapid.IntRange(0, 1).Draw(t, label+".ffd")]
+	case 1:
+		shape = 5
+		n = rapid.IntRange(14, 70).Draw(t, label+".dn")
+		if step > 3 {
+			step = 1
+		}
+	}
 	out := make([]model.Point, 0, n)
 	for j := 0; j < n; j++ {
 		var v model.Value
@@ -213,6 +229,13 @@ func GenRun(t *rapid.T, label string) []model.Point {
 		switch fd.K {
 		case model.Float:
 			v = model.Value{K: fd.K, F: float64(x%100000) / 4}
+			if shape == 4 {
+				bits := math.Float64bits(1.5 + float64(seed)/1024)
+				if j%2 == 1 {
+					bits ^= 1<<31 | uint64(j)*2654435761%(1<<31)
+				}
+				v.F = math.Float64frombits(bits)
+			}
 		case model.Integer:
 			v = model.Value{K: fd.K, I: x}
 		case model.Unsigned:
@@ -222,7 +245,12 @@ func GenRun(t *rapid.T, label string) []model.Point {
 		case model.Boolean:
 			v = model.Value{K: fd.K, B: x&1 == 0}
 		}
-		out = append(out, model.Point{M: m, Tags: tags, T: start + int64(j)*step, Fields: []model.FieldValue{{Name: fd.Name, V: v}}})
+		ts := start + int64(j)*step
+		if shape == 5 {
+			// a third as many distinct instants as points, visited in a scrambled order
+			ts = start + (int64(j)*7919+seed*seed)%(int64(n)/3+1)*step
+		}
+		out = append(out, model.Point{M: m, Tags: tags, T: ts, Fields: []model.FieldValue{{Name: fd.Name, V: v}}})
 	}
 	return out
 }
